@@ -1353,8 +1353,13 @@ class Message(ABC):
             if meta.proto_type == TYPE_MAP:
                 # Value represents a single key/value pair entry in the map.
                 current[value.key] = value.value
-            elif isinstance(current, list) and not isinstance(value, list):
-                current.append(value)
+            elif isinstance(current, list):
+                # a packed field may arrive in several chunks (and mixed with
+                # unpacked elements): they all accumulate
+                if isinstance(value, list):
+                    current.extend(value)
+                else:
+                    current.append(value)
             else:
                 setattr(self, field_name, value)
 
